@@ -31,6 +31,7 @@ type Batch struct {
 	Race    bool     // use the -race worker
 	Strace  string   // non-empty: run under strace with these extra args, log to <out>.strace
 	Procs   int      // GOMAXPROCS for the child (0 = default share)
+	Netns   bool     // run the child in a fresh network namespace (unshare -n); the worker configures a veth pair in it
 	Timeout time.Duration
 }
 
@@ -77,6 +78,7 @@ type childResult struct {
 	wall   time.Duration
 	crash  string // go panic / fatal error text when the child died
 	timed  bool
+	skip   string // batch not run (reason)
 }
 
 var racePat = regexp.MustCompile(`(?s)WARNING: DATA RACE.*?==================`)
@@ -139,8 +141,21 @@ func main() {
 	sem := make(chan struct{}, par)
 	results := make([]childResult, len(plan))
 	var wg sync.WaitGroup
+	netnsOK, netnsWhy := true, ""
+	for _, b := range plan {
+		if b.Netns {
+			if out, err := exec.Command("unshare", "-n", "sh", "-c", "ip link set lo up && ip link add vprobe0 type veth peer name vprobe1").CombinedOutput(); err != nil {
+				netnsOK, netnsWhy = false, fmt.Sprintf("%v: %s", err, truncate(string(out), 200))
+			}
+			break
+		}
+	}
 	for i, b := range plan {
 		if only >= 0 && i != only {
+			continue
+		}
+		if b.Netns && !netnsOK {
+			results[i] = childResult{batch: i, spec: b, skip: "network namespaces with veth are not available here (" + netnsWhy + ")"}
 			continue
 		}
 		wg.Add(1)
@@ -182,8 +197,13 @@ func main() {
 	notes := map[string]string{}
 	raceReports := 0
 	envs := map[string]int{}
+	skipped := []string{}
 	for i, cr := range results {
 		if only >= 0 && i != only {
+			continue
+		}
+		if cr.skip != "" {
+			skipped = append(skipped, fmt.Sprintf("batch %d (%s): %s", i, cr.spec.Mode, cr.skip))
 			continue
 		}
 		ran++
@@ -293,6 +313,9 @@ func main() {
 	}
 	if len(notes) > 0 {
 		cov["notes"] = notes
+	}
+	if len(skipped) > 0 {
+		cov["skipped_batches"] = skipped
 	}
 	if len(envs) > 0 {
 		ek := []string{}
@@ -445,6 +468,8 @@ func runChild(bin, prop, tier string, seed uint64, i, n, mi, mn int, b Batch, di
 		sargs = append(sargs, bin)
 		sargs = append(sargs, args...)
 		cmd = exec.Command("strace", sargs...)
+	} else if b.Netns {
+		cmd = exec.Command("unshare", append([]string{"-n", bin}, args...)...)
 	} else {
 		cmd = exec.Command(bin, args...)
 	}
